@@ -21,6 +21,7 @@ type obs struct {
 	wfIDOf func(raw *kernels.Wavefront) int
 	gOf    func(wg *kernels.WorkGroup) int
 	onDone func(g int)
+	onMap  func(g int)
 	paths  map[int][]string // emulation: instruction path per wavefront
 
 	open    map[string]*openInst
@@ -48,7 +49,7 @@ type reqRec struct {
 }
 
 func newObs(r *runner, wfIDOf func(*kernels.Wavefront) int, gOf func(*kernels.WorkGroup) int) *obs {
-	return &obs{r: r, wfIDOf: wfIDOf, gOf: gOf, onDone: func(int) {},
+	return &obs{r: r, wfIDOf: wfIDOf, gOf: gOf, onDone: func(int) {}, onMap: func(int) {},
 		open: map[string]*openInst{}, instNo: map[string]int{}, wfTask: map[string]int{},
 		wfPtr: map[int]*wavefront.Wavefront{}, reqG: map[string]int{}, reqInfo: map[string]*reqRec{}}
 }
@@ -138,6 +139,7 @@ func (o *obs) dispatchHook(isEmu bool) sim.Hook {
 					wfs[i] = o.wfIDOf(wf)
 				}
 				r.st.WGs++
+				o.onMap(g)
 				r.emit("MapWG", ab.Rec{"g": g, "wfs": wfs})
 			}
 		case *protocol.WGCompletionMsg:
